@@ -59,7 +59,7 @@ fn canonical(doc: &Vec<u8>) {
     core::mem::forget((v, re));
 }
 
-//@ props: C07
+//@ props: UNREACHED-C07
 //@ timeout: 1800
 //@ harness: c07_concat_delete_get
 //@ desc: chain concat([n], n') -> delete_by_index(result, i in -1..=2) -> get_by_index(result, 0): each intermediate result is the README encoding of the tree result, decodes and re-encodes to itself, and the final extraction is the canonical element
